@@ -14,7 +14,7 @@ import sys
 import time
 
 VERIF = os.path.dirname(os.path.dirname(os.path.abspath(__file__)))
-EVID_DIR = os.path.join(VERIF, "evidence")
+EVID_DIR = os.environ.get("VERIF_EVID_DIR") or os.path.join(VERIF, "evidence")
 VIOL_DIR = os.path.join(EVID_DIR, "violations")
 KNOWN = os.path.join(VERIF, "known_findings.json")
 
@@ -44,10 +44,15 @@ class Report:
                         "reference tables in /verif/rules"]
         self.extra = {}
         self.signatures = set()
+        self._okset = set()
 
     # ------------------------------------------------------------------ verdicts
     def ok(self, rule, construct, detail="", sample=None, sig=None):
-        self.discharged.append((rule, construct, _norm(detail)))
+        key = (rule, construct, _norm(detail))
+        if key in self._okset:
+            return
+        self._okset.add(key)
+        self.discharged.append(key)
         self._count(rule)
         if sig is not None:
             self.signatures.add(_norm(sig))
@@ -107,7 +112,7 @@ class Report:
                 known_hits.append(v)
             else:
                 new_viol.append(v)
-        os.makedirs(VIOL_DIR, exist_ok=True)
+        os.makedirs(os.path.join(VERIF, "evidence", "violations"), exist_ok=True)
         for v in known_hits:
             out.append("KNOWN-FINDING: property=%s %s %s: %s" % (self.prop, v["rule"], v["construct"], v["detail"]))
         for v in new_viol:
